@@ -282,7 +282,7 @@ def feed_case(rng, t):
 def gen(rng, tier):
     quick = tier == "quick"
     cases = []
-    N = 1 if quick else 12
+    N = 1 if quick else 120
     allcuts = 48 if quick else 300
     # (a) grammar-generated JSON and XDL documents
     docs = []
